@@ -50,7 +50,7 @@ fn en(e: PasetoError) -> String {
 }
 
 /// seal / open with the suffixed payload type (`SUFFIX = "c"`)
-fn seal_with_c<V, P>(key: &Key<V, P::SealingKey>, nonce: Vec<u8>, msg: &[u8], f: &[u8], a: &[u8]) -> Result<String, PasetoError>
+pub fn seal_with_c<V, P>(key: &Key<V, P::SealingKey>, nonce: Vec<u8>, msg: &[u8], f: &[u8], a: &[u8]) -> Result<String, PasetoError>
 where
     V: SealingVersion<P>,
     P: Purpose,
@@ -340,7 +340,16 @@ fn o_fcanon<V: ORt<P>, P: Purpose>(key: &[u8], msg: &[u8], f: &[u8]) -> R {
         }
         Err(_) => (false, true),
     };
-    Ok(format!("genuine={} altered_accepted={} dec={} val={} alt_reser={}", genuine as u8, altered as u8, DEC.with(|c| c.get()), VAL.with(|c| c.get()), alt_reser as u8))
+    let (d, v) = (DEC.with(|c| c.get()), VAL.with(|c| c.get()));
+    // interoperability direction: a token genuinely sealed over footer bytes that are *not* the footer type's own spelling
+    // (as another implementation would write them) is authenticated as received, so it opens under the typed footer
+    let t3 = UnsealedToken::<V, P, RecRaw>::new(RecRaw(msg.to_vec())).with_footer(alt.clone()).seal(&sk, &[]).map_err(|e| format!("seal-{}", en(e)))?;
+    let s3 = t3.to_string();
+    let noncanon = match s3.parse::<SealedToken<V, P, RecRaw, TrimFooter>>() {
+        Ok(t4) => t4.to_string() == s3 && t4.unseal(&pk, &[], &RecAllow).map(|u| u.claims.0 == msg && u.footer.0 == f).unwrap_or(false),
+        Err(_) => false,
+    };
+    Ok(format!("genuine={} altered_accepted={} dec={} val={} alt_reser={} noncanon_ok={}", genuine as u8, altered as u8, d, v, alt_reser as u8, noncanon as u8))
 }
 
 trait ORt<P: Purpose>: SealingVersion<P> {
